@@ -1,7 +1,8 @@
 (* C02 property theorems.  Only statements closed by [exact]; each followed by Print Assumptions.
    Part 1/3 are about the model the correspondence harness runs (C02.Model: flatten, unflatten, auto_convert);
    part 2 is about the option records REGENERATED from cli.FLAG_TABLE on every run (gen/Gen_Flags.v). *)
-From Miller Require Import Base.Bytes Base.Record C02.Model C02.Spec C02.Proofs.
+From Coq Require Import Permutation.
+From Miller Require Import Base.Bytes Base.Record C02.Model C02.Spec C02.Proofs C02.ProofsE.
 From Miller Require Import gen.Gen_Flags C02.FlagSpec C02.FlagProofs C02.FlagExtra.
 Open Scope char_scope.
 
@@ -49,6 +50,15 @@ Theorem C02_flat_records_untouched :
      unflatten sep r = r).
 Proof. exact (fun sep r => conj (flatten_noop sep r) (unflatten_noop sep r)). Qed.
 Print Assumptions C02_flat_records_untouched.
+
+(* Go ranges over affectedBaseIndices (a map) in an unspecified order; the model uses first-seen order.  Whatever
+   order the runtime picks, the result of CopyUnflattened is the model's: for EVERY input record *)
+Theorem C02_unflatten_order_irrelevant :
+  forall sep r aff',
+    Permutation (snd (fold_left (unflatten_step sep) r ([], []))) aff' ->
+    fold_left arrayify_at aff' (fst (fold_left (unflatten_step sep) r ([], []))) = unflatten sep r.
+Proof. exact unflatten_order_irrelevant. Qed.
+Print Assumptions C02_unflatten_order_irrelevant.
 
 (* the chain as assembled by parseCommandLinePassTwo: a nesting format J (json, jsonl, yaml) to a non-nesting
    format T (anything else but dcf) appends `flatten`; T back to J appends `unflatten` unless the user's last verb
@@ -137,17 +147,31 @@ Print Assumptions C02_conv_there_and_back.
    The quantifiers range over the complete regenerated table; the proofs are vm_compute over it. *)
 
 (* every keystroke saver = its documented expansion (--X2Y = --iX --oY, b = --opprint --barred, -p, -T, -N ...),
-   alone and followed by separator overrides -- except the spellings in ks_known_bad (findings, c02.findings.md) *)
-Theorem C02_keystroke_savers_equal_expansion_partial :
-  forall s e t, In s all_spellings -> expansion_of_name s = Some e -> ~ In s ks_known_bad -> In t ctx_tails ->
+   alone and followed by separator overrides: the whole table, no exception (the three families that differed on the
+   pinned tree were repaired in /repo; a regression breaks this theorem) *)
+Theorem C02_keystroke_savers_equal_expansion :
+  forall s e t, In s all_spellings -> expansion_of_name s = Some e -> In t ctx_tails ->
   equivalent_in_context [s] e t.
-Proof. exact keystroke_savers_equal_expansion_partial. Qed.
-Print Assumptions C02_keystroke_savers_equal_expansion_partial.
+Proof. exact keystroke_savers_equal_expansion. Qed.
+Print Assumptions C02_keystroke_savers_equal_expansion.
 
-Theorem C02_keystroke_savers_refuted :
-  exists s e, In s all_spellings /\ expansion_of_name s = Some e /\ equiv_in [s] e [] = false.
-Proof. exact keystroke_savers_refuted. Qed.
-Print Assumptions C02_keystroke_savers_refuted.
+(* the same with a separator flag given BEFORE the keystroke saver: holds except for the --X2t / --X2n closures that,
+   unlike --otsv / --onidx, do not assign OFS (finding flag-spelling:--ofs-before-X2t-X2n) *)
+Theorem C02_keystroke_savers_prefix_partial :
+  forall s e p, In s all_spellings -> expansion_of_name s = Some e -> ~ In s ks_prefix_sensitive -> In p ctx_prefixes ->
+  equivalent_in_context (p ++ [s]) (p ++ e) [].
+Proof. exact keystroke_savers_prefix_partial. Qed.
+Print Assumptions C02_keystroke_savers_prefix_partial.
+
+Theorem C02_keystroke_savers_prefix_refuted :
+  exists s e p, In s all_spellings /\ expansion_of_name s = Some e /\ In p ctx_prefixes /\ equiv_pre p [s] e = false.
+Proof. exact keystroke_savers_prefix_refuted. Qed.
+Print Assumptions C02_keystroke_savers_prefix_refuted.
+
+(* the exclusion list is exact: each listed spelling differs under the prefix --ofs and under no other prefix *)
+Theorem C02_keystroke_prefix_sensitive_exact : ks_prefix_sensitive_exact = true.
+Proof. exact ks_prefix_sensitive_exact_true. Qed.
+Print Assumptions C02_keystroke_prefix_sensitive_exact.
 
 (* non-vacuity of the above: the section is not empty, every flag in it has a documented expansion, the whole
    documented 10 x 10 matrix (markdown-to-markdown aside) is present in the table *)
